@@ -35,6 +35,8 @@ fn main() {
         ("C11", Some(r)) => checks::c11::replay(&ctx, &r["case"]),
         ("C10", None) => checks::c10::run(&ctx),
         ("C10", Some(r)) => checks::c10::replay(&ctx, &r["case"]),
+        ("C20", None) => checks::c20::run(&ctx),
+        ("C20", Some(r)) => checks::c20::replay(&ctx, &r["case"]),
         ("C05", None) => checks::cfgstate::run_c05(&ctx),
         ("C06", None) => checks::cfgstate::run_c06(&ctx),
         ("C07", None) => checks::cfgstate::run_c07a(&ctx),
